@@ -116,7 +116,7 @@ AggAccepts(buf, mtu) == Len(buf) <= mtu
 (***************************************************************************)
 UnitOK(mode, mtu, align, psize, u) ==
     CASE mode = "agg"   -> Len(u) <= mtu
-      [] mode = "chunk" -> Len(u) <= mtu /\ Len(u) % align = 0
+      [] mode \in {"chunk", "chain"} -> Len(u) <= mtu /\ Len(u) % align = 0
       [] OTHER          -> Len(u) = psize /\ u[1] = SYNC       \* whole TS packet
 
 (***************************************************************************)
